@@ -12,7 +12,7 @@
     parked.  One scheduled step = perform that call, then run locally to the next call (or block on the session
     lock, or finish).  A schedule is a list of events: `step tid` or `tick seconds`.
   * two families of consumers.  *Burn* consumers (authorization code, request object, OpenID4VP nonce, user
-    redirect token) fetch a value stored at issuance through `SessionStore.GetAndDelete`.  *Mark* consumers
+    redirect token, OpenID4VCI pre-authorized code) fetch a value stored at issuance through `SessionStore.GetAndDelete`.  *Mark* consumers
     (s2s presentation nonce, DPoP jti) look the secret up and store it as used.
   * how `SessionStoreImpl.GetAndDelete` is built is a parameter `GadShape` filled from a regenerated fact:
     `twoCalls` (Get, then Delete), `locked` (the same two calls under a database-wide mutex), `singleCall`.
@@ -30,6 +30,7 @@ inductive BurnKind where
   | reqObj    -- oauth/requestobject RequestJWTByGet / RequestJWTByPost
   | vpNonce   -- oauth/nonce         validatePresentationNonce
   | redirect  -- user/redirect       handleUserLanding
+  | preAuth   -- openid4vci/preauthcode   vcr/issuer HandleAccessTokenRequest (OpenID4VCI pre-authorized code)
   deriving DecidableEq, Repr, Inhabited
 
 inductive MarkKind where
@@ -44,11 +45,11 @@ inductive Kind where
   deriving DecidableEq, Repr, Inhabited
 
 def Kind.all : List Kind :=
-  [.burn .code, .burn .reqObj, .burn .vpNonce, .burn .redirect, .mark .s2s, .mark .jti]
+  [.burn .code, .burn .reqObj, .burn .vpNonce, .burn .redirect, .burn .preAuth, .mark .s2s, .mark .jti]
 
 def Kind.name : Kind → String
   | .burn .code => "code" | .burn .reqObj => "reqobj" | .burn .vpNonce => "vpnonce" | .burn .redirect => "redirect"
-  | .mark .s2s => "s2s" | .mark .jti => "jti"
+  | .burn .preAuth => "preauth" | .mark .s2s => "s2s" | .mark .jti => "jti"
 
 structure Key where
   ns : Kind
@@ -121,7 +122,8 @@ structure Cfg where
 structure BurnReq where
   kind : BurnKind
   id : String
-  /-- value this request expects to find (client_id for code / request object, state for the OpenID4VP nonce) -/
+  /-- value this request expects to find (client_id for code / request object, state for the OpenID4VP nonce,
+      issuer of the flow for the pre-authorized code) -/
   want : String := ""
   /-- the checks made before the store is consulted pass (code: code_verifier and client_id present;
       vpNonce: all presentations carry the same nonce) -/
